@@ -467,7 +467,11 @@ BODY_ENCODERS = {
     'body_bytes': [HT + '::body::Body::from_bytes', '<' + HT + '::body::Body as core::convert::From<&[u8]>>::from',
                    '<' + HT + '::body::Body as core::convert::From::from>', '<' + HT + '::body::Body as core::convert::Into::into>'],
 }
-BODY_ARG_IDENTITY = [('core::convert::AsRef::as_ref', 0), ('core::ops::deref::Deref::deref', 0), ('core::borrow::Borrow::borrow', 0)]
+BODY_ARG_IDENTITY = [('core::convert::AsRef::as_ref', 0), ('core::ops::deref::Deref::deref', 0), ('core::borrow::Borrow::borrow', 0),
+                     # an owned copy of the same bytes / text
+                     ('alloc::slice::<impl [T]>::to_owned', 0), ('alloc::borrow::ToOwned::to_owned', 0), ('alloc::slice::<impl [T]>::to_vec', 0),
+                     ('core::clone::Clone::clone', 0), ('alloc::string::String::into_bytes', 0), ('alloc::string::String::as_bytes', 0),
+                     ('alloc::string::String::as_str', 0), ('alloc::vec::Vec::as_slice', 0)]
 
 
 def check_body_encoders(rep, http, cfg):
